@@ -111,7 +111,7 @@ func (sc *c10Scenario) Describe() interface{} { return sc }
 func (sc *c10Scenario) Config() simrt.Config {
 	return simrt.Config{Horizon: time.Hour, MaxSteps: 300000, NoStall: true}
 }
-func (sc *c10Scenario) Probes() map[string]int { return sc.probes }
+func (sc *c10Scenario) Probes() map[string]int            { return sc.probes }
 func (sc *c10Scenario) Nontrivial(res *simrt.Result) bool { return sc.overlapE }
 
 const c10MapOffset = 1000000
